@@ -9,7 +9,7 @@ for d in sorted(glob.glob("/verif/seeded/*")):
         continue
     m = json.load(open(mp))
     name = os.path.basename(d)
-    rnd = {"m1": 1, "m2": 1, "m3": 2, "m4": 2, "m5": 3, "m6": 3}.get(name.split("-")[1], "?")
+    rnd = {"m1": 1, "m2": 1, "m3": 2, "m4": 2, "m5": 3, "m6": 3, "m7": 4, "m8": 4}.get(name.split("-")[1], "?")
     rules = sorted({re.sub(r"^violated (\S+) at .*", r"\1", r) for r in (m.get("reported_rules") or [])})
     diff = open(os.path.join(d, "patch.diff")).read()
     files = sorted(set(re.findall(r"^\+\+\+ b/(\S+)", diff, re.M)))
